@@ -3,6 +3,7 @@ package props
 import (
 	"bytes"
 	"fmt"
+	"io"
 	"reflect"
 
 	structform "github.com/elastic/go-structform"
@@ -23,10 +24,11 @@ type C17Case struct {
 	Kind     string       `json:"kind"` // encoder | parser | decoder | iterator | unfolder
 	Format   string       `json:"format,omitempty"`
 	Opts     EncOpts      `json:"opts"`
-	Streams  [][]model.Ev `json:"streams,omitempty"`   // encoder
-	Docs     [][]byte     `json:"docs,omitempty"`      // parser, decoder
-	UseParse []bool       `json:"use_parse,omitempty"` // parser: Parser.Parse (true) or Write (false) per document
-	Reader   bool         `json:"reader,omitempty"`    // decoder: NewDecoder(reader) instead of NewBytesDecoder
+	Streams  [][]model.Ev `json:"streams,omitempty"`       // encoder
+	Docs     [][]byte     `json:"docs,omitempty"`          // parser, decoder
+	UseParse []bool       `json:"use_parse,omitempty"`     // parser: Parser.Parse (true) or Write (false) per document
+	Reader   bool         `json:"reader,omitempty"`        // decoder: NewDecoder(reader) instead of NewBytesDecoder
+	EOFData  bool         `json:"eof_with_data,omitempty"` // decoder over a reader: the last bytes arrive together with io.EOF
 	Cuts     []int        `json:"cuts,omitempty"`
 	BufSize  int          `json:"bufsize,omitempty"`
 	Gos      []GoCase     `json:"gos,omitempty"` // iterator, unfolder
@@ -181,7 +183,7 @@ func checkC17(ci any, info *CaseInfo) string {
 			if bs <= 0 {
 				bs = 32
 			}
-			dec = cd.NewDecoder(&chunkReader{chunks: cloneChunks(gen.Split(stream, c.Cuts))}, bs, rec)
+			dec = cd.NewDecoder(&chunkReader{chunks: cloneChunks(gen.Split(stream, c.Cuts)), eofWithData: c.EOFData}, bs, rec)
 		} else {
 			dec = cd.NewBytesDecoder(append([]byte{}, stream...), rec)
 		}
@@ -196,6 +198,13 @@ func checkC17(ci any, info *CaseInfo) string {
 			if j, ok := evsEqual(frec.Evs, rec.Evs); !ok {
 				return fmt.Sprintf("%s decoder: after %d documents the reused decoder reports event #%d of %q as %s, a fresh one as %s", c.Format, i, j, trunc(d), evAt(rec.Evs, j), evAt(frec.Evs, j))
 			}
+		}
+		// and at the end of the stream it says what a fresh decoder says on no input
+		rec.Reset()
+		o := guard(dec.Next)
+		fo := guard(cd.NewBytesDecoder(nil, &model.Recorder{}).Next)
+		if o.Panicked() || fo.Panicked() || (o.Err == nil) != (fo.Err == nil) || (o.Err == io.EOF) != (fo.Err == io.EOF) || len(rec.Evs) != 0 {
+			return fmt.Sprintf("%s decoder: after all %d documents the reused decoder reports %v and %d events, a fresh decoder without input %v", c.Format, len(c.Docs), o, len(rec.Evs), fo)
 		}
 	case "iterator":
 		info.NonTrivial = len(c.Gos) >= 2
@@ -340,7 +349,12 @@ func drawC17(t *rapid.T) any {
 					total += len(d)
 				}
 				c.Cuts = gen.Cuts(t, total, nil)
-				c.BufSize = rapid.SampledFrom([]int{1, 3, 16, 64, 1024}).Draw(t, "bufsize")
+				c.BufSize = rapid.SampledFrom([]int{1, 3, 16, 64, 1024, 8192}).Draw(t, "bufsize")
+				c.EOFData = rapid.Bool().Draw(t, "eofdata")
+				if rapid.IntRange(0, 3).Draw(t, "oneread") == 0 {
+					// everything in one read
+					c.Cuts, c.BufSize = nil, 8192
+				}
 			}
 		}
 	case "iterator":
@@ -396,7 +410,7 @@ func drawC17(t *rapid.T) any {
 func init() {
 	register(&Property{
 		ID:            "C17",
-		Rule:          "histories of 2..5 complete documents on ONE instance, per instance kind: 3 encoders (generated event streams incl. extended events, typed containers, options), 3 parsers (Parser.Parse for any value, Parser.Write for self-delimiting container documents; own and foreign documents incl. counted/typed containers), 3 pull decoders (byte slice and reader with generated read schedules), the fold iterator (generated Go types/values incl. pool types) and the unfolder (SetTarget + document via direct/json/ubjson/cborl; 1 in 6 histories walk one type with a user unfolder through different lookups: as target, through pointers, as slice/map element, as struct field; 1 in 3 histories with the key cache enabled at capacity 1, 2, 3 or 8); after EVERY step the instance's output for that document is compared with a fresh instance's (encoder bytes; parser/decoder events; iterator value; unfolder target) and all stack-depth hooks must be idle; non-trivial = history >= 2 documents (encoders: of at least two different shapes); distinct by case hash",
+		Rule:          "histories of 2..5 complete documents on ONE instance, per instance kind: 3 encoders (generated event streams incl. extended events, typed containers, options), 3 parsers (Parser.Parse for any value, Parser.Write for self-delimiting container documents; own and foreign documents incl. counted/typed containers), 3 pull decoders (byte slice and reader with generated read schedules, buffer sizes 1..8192, 1 in 4 with everything in one read, the last bytes alone or together with io.EOF; after the last document the decoder must report what a fresh decoder reports on no input), the fold iterator (generated Go types/values incl. pool types) and the unfolder (SetTarget + document via direct/json/ubjson/cborl; 1 in 6 histories walk one type with a user unfolder through different lookups: as target, through pointers, as slice/map element, as struct field; 1 in 3 histories with the key cache enabled at capacity 1, 2, 3 or 8); after EVERY step the instance's output for that document is compared with a fresh instance's (encoder bytes; parser/decoder events; iterator value; unfolder target) and all stack-depth hooks must be idle; non-trivial = history >= 2 documents (encoders: of at least two different shapes); distinct by case hash",
 		New:           func() any { return &C17Case{} },
 		Draw:          drawC17,
 		Check:         checkC17,
